@@ -81,6 +81,26 @@ func (g *gen) skeleton(stmts []ast.Stmt) string {
 			parts = append(parts, "switch { "+g.caseClauses(s.Body.List)+" }")
 		case *ast.TypeSwitchStmt:
 			parts = append(parts, "typeswitch { "+g.caseClauses(s.Body.List)+" }")
+		case *ast.SendStmt:
+			parts = append(parts, "send")
+		case *ast.GoStmt:
+			parts = append(parts, "go "+selName(s.Call.Fun))
+		case *ast.SelectStmt:
+			clauses := []string{}
+			for _, c := range s.Body.List {
+				if cc, ok := c.(*ast.CommClause); ok {
+					kind := "default"
+					switch cm := cc.Comm.(type) {
+					case *ast.SendStmt:
+						kind = "send"
+					case *ast.ExprStmt, *ast.AssignStmt:
+						_ = cm
+						kind = "receive"
+					}
+					clauses = append(clauses, "case "+kind+": "+g.skeleton(cc.Body))
+				}
+			}
+			parts = append(parts, "select { "+strings.Join(clauses, " | ")+" }")
 		case *ast.ReturnStmt:
 			calls := []string{}
 			for _, r := range s.Results {
